@@ -666,3 +666,158 @@ def cascade_net(rng, idx=0, h=None, w=None, c=None, specs=None, dtype="int8"):
     if cur == x:
         cur = b.unary("RELU", x)
     return b.finish([cur])
+
+
+# ------------------------------------------------------------------------------------------------
+# Structurally valid but unusual models (C13/C16: corner shapes, all data types, missing or per-axis
+# quantisation, operators Vela does not know how to accelerate)
+
+def weird_net(rng, idx=0):
+    dtype = rng.choice(["int8", "uint8", "int16", "int32", "float32", "int8", "int64", "bool"])
+    b = B(rng, f"weird{idx}", dtype if dtype in ("int8", "uint8", "int16") else "int8")
+    rank = rng.choice([0, 1, 2, 3, 4, 4, 4, 5])
+    dims = [rng.choice([1, 1, 2, 3, 5, 7, 8, 13, 16, 17, 31]) for _ in range(rank)]
+    if rank >= 1 and rng.random() < 0.3:
+        dims[0] = rng.choice([2, 3])          # batch > 1
+    kind = rng.choice(["unary", "binary", "reshape", "transpose", "pack", "conv_noq", "conv_peraxis_act", "argmax", "shape",
+                       "cast", "fc2d", "pool_big", "conv_big_stride", "dyn_weights", "slice", "float_conv", "int32_add",
+                       "gather", "dup_inputs", "no_ops_passthrough", "exp_int8", "squeeze", "pad5", "mean_all"])
+    b.net.desc.append(f"weird kind={kind} dtype={dtype} dims={dims}")
+
+    def tensor(shape, dt=None, quant=True, name=None):
+        dt = dt or dtype
+        if dt in ("int8", "uint8", "int16") and quant:
+            return b.fm(shape, dt, name=name)
+        return b.net.add(T(name or b.fresh("t"), shape, dt))
+
+    x = tensor(dims, name=b.fresh("input"))
+    b.net.inputs.append(x)
+    xt = b.t(x)
+    out = None
+    if kind == "unary":
+        opk = rng.choice(["ABS", "NEG", "RELU", "LOGISTIC", "TANH", "HARD_SWISH", "EXP", "RSQRT", "FLOOR", "SQRT", "LOG", "SIN",
+                          "ROUND", "CEIL", "LOGICAL_NOT", "SQUARE", "ELU", "RELU6", "RELU_N1_TO_1"])
+        out = tensor(dims)
+        b.net.ops.append(Op(opk, [x], [out]))
+    elif kind == "binary":
+        opk = rng.choice(["ADD", "SUB", "MUL", "DIV", "MINIMUM", "MAXIMUM", "FLOOR_DIV", "FLOOR_MOD", "POW", "SQUARED_DIFFERENCE",
+                          "LESS", "GREATER", "EQUAL", "LOGICAL_AND"])
+        dims2 = [d if rng.random() < 0.7 else 1 for d in dims]
+        y = tensor(dims2, name=b.fresh("input"))
+        b.net.inputs.append(y)
+        odt = "bool" if opk in ("LESS", "GREATER", "EQUAL", "LOGICAL_AND") else dtype
+        out = tensor(dims, odt)
+        on = {"ADD": "AddOptions", "SUB": "SubOptions", "MUL": "MulOptions", "DIV": "DivOptions"}.get(opk)
+        b.net.ops.append(Op(opk, [x, y], [out], (on, dict(FusedActivationFunction=0)) if on else None))
+    elif kind == "reshape":
+        n = int(np.prod(dims)) if dims else 1
+        shp = rng.choice([[n], [1, n], [n, 1], [1, 1, 1, n], [1, 1, n, 1]])
+        out = tensor(shp)
+        if xt.scales:
+            b.t(out).scales, b.t(out).zps = xt.scales, xt.zps
+        st = b.const([len(shp)], "int32", shp)
+        b.net.ops.append(Op("RESHAPE", [x, st], [out], ("ReshapeOptions", dict(NewShape=shp))))
+    elif kind == "transpose" and rank >= 2:
+        perm = list(range(rank))
+        rng.shuffle(perm)
+        out = tensor([dims[p] for p in perm])
+        if xt.scales:
+            b.t(out).scales, b.t(out).zps = xt.scales, xt.zps
+        pt = b.const([rank], "int32", perm)
+        b.net.ops.append(Op("TRANSPOSE", [x, pt], [out], ("TransposeOptions", {})))
+    elif kind == "pack":
+        out = tensor([2] + dims)
+        if xt.scales:
+            b.t(out).scales, b.t(out).zps = xt.scales, xt.zps
+        b.net.ops.append(Op("PACK", [x, x], [out], ("PackOptions", dict(ValuesCount=2, Axis=0))))
+    elif kind in ("conv_noq", "conv_peraxis_act", "conv_big_stride", "dyn_weights", "float_conv") and rank == 4 and dims[3] <= 16:
+        n, h, w, c = dims
+        oc = rng.choice([1, 3, 8])
+        k = rng.choice([1, 3])
+        s = 4 if kind == "conv_big_stride" else 1
+        if kind == "float_conv":
+            b.t(x).dtype, b.t(x).scales, b.t(x).zps = "float32", None, None
+            wt = b.const([oc, k, k, c], "float32", np.random.RandomState(1).rand(oc, k, k, c))
+            bt = b.const([oc], "float32", np.zeros(oc))
+            out = b.net.add(T(b.fresh("t"), [n, -(-h // s), -(-w // s), oc], "float32"))
+        else:
+            if b.t(x).dtype not in ("int8", "uint8", "int16"):
+                b.t(x).dtype, b.t(x).scales, b.t(x).zps = "int8", [0.05], [0]
+            if kind == "conv_noq":
+                b.t(x).scales, b.t(x).zps = None, None
+            if kind == "conv_peraxis_act":
+                b.t(x).scales, b.t(x).zps, b.t(x).qdim = [0.1] * c, [0] * c, 3
+            if kind == "dyn_weights":
+                wt = b.fm([oc, k, k, c], "int8", name=b.fresh("input"))
+                b.net.inputs.append(wt)
+            else:
+                wt = b.const([oc, k, k, c], "int8", b.rand_weights([oc, k, k, c], "int8"), [0.02], [0])
+            bt = b.const([oc], "int32", np.zeros(oc), [0.001], [0])
+            out = b.fm([n, -(-h // s), -(-w // s), oc], b.t(x).dtype if b.t(x).dtype != "int16" else "int16")
+        b.net.ops.append(Op("CONV_2D", [x, wt, bt], [out], ("Conv2DOptions", dict(
+            Padding=0, StrideW=s, StrideH=s, DilationWFactor=1, DilationHFactor=1, FusedActivationFunction=0))))
+    elif kind == "argmax" and rank >= 1:
+        ax = b.const([], "int32", [rank - 1])
+        out = b.net.add(T(b.fresh("t"), dims[:-1], rng.choice(["int32", "int64"])))
+        b.net.ops.append(Op("ARG_MAX", [x, ax], [out], ("ArgMaxOptions", dict(OutputType=TT[b.t(out).dtype]))))
+    elif kind == "shape":
+        out = b.net.add(T(b.fresh("t"), [rank], "int32"))
+        b.net.ops.append(Op("SHAPE", [x], [out], ("ShapeOptions", dict(OutType=2))))
+    elif kind == "cast":
+        odt = rng.choice(["float32", "int32", "int8", "uint8", "int16", "bool"])
+        out = tensor(dims, odt)
+        b.net.ops.append(Op("CAST", [x], [out], ("CastOptions", dict(InDataType=TT[xt.dtype], OutDataType=TT[odt]))))
+    elif kind == "fc2d" and rank == 2 and xt.dtype in ("int8", "uint8", "int16") and xt.scales:
+        out = b.fc(x, rng.choice([1, 5, 16]))
+    elif kind == "pool_big" and rank == 4 and xt.dtype in ("int8", "uint8", "int16") and xt.scales:
+        out = b.pool(x, rng.choice(["MAX_POOL_2D", "AVERAGE_POOL_2D"]), (rng.choice([1, 2, 9]), rng.choice([1, 3, 300])),
+                     (rng.choice([1, 2, 4]), rng.choice([1, 3])), "SAME")
+    elif kind == "slice" and rank >= 1:
+        bt_ = b.const([rank], "int32", [0] * rank)
+        sz = b.const([rank], "int32", [max(1, d - 1) for d in dims])
+        out = tensor([max(1, d - 1) for d in dims])
+        if xt.scales:
+            b.t(out).scales, b.t(out).zps = xt.scales, xt.zps
+        b.net.ops.append(Op("SLICE", [x, bt_, sz], [out], ("SliceOptions", {})))
+    elif kind == "int32_add":
+        b.t(x).dtype, b.t(x).scales, b.t(x).zps = "int32", None, None
+        out = b.net.add(T(b.fresh("t"), dims, "int32"))
+        b.net.ops.append(Op(rng.choice(["ADD", "MUL", "SUB"]), [x, x], [out], None))
+    elif kind == "gather" and rank >= 1:
+        it = b.const([2], "int32", [0, dims[0] - 1])
+        out = tensor([2] + dims[1:])
+        if xt.scales:
+            b.t(out).scales, b.t(out).zps = xt.scales, xt.zps
+        b.net.ops.append(Op("GATHER", [x, it], [out], ("GatherOptions", dict(Axis=0))))
+    elif kind == "dup_inputs" and xt.dtype in ("int8", "uint8", "int16") and rank == 4:
+        a1 = b.binary("ADD", x, x)
+        a2 = b.binary("MUL", x, x)
+        out = b.binary("ADD", a1, a2)
+        return b.finish([out, a1])
+    elif kind == "no_ops_passthrough":
+        return b.finish([x])
+    elif kind == "exp_int8" and xt.dtype in ("int8", "int16"):
+        out = tensor(dims)
+        b.net.ops.append(Op("EXP", [x], [out]))
+    elif kind == "squeeze" and rank >= 1:
+        sq = [i for i, d in enumerate(dims) if d == 1]
+        out = tensor([d for d in dims if d != 1])
+        if xt.scales:
+            b.t(out).scales, b.t(out).zps = xt.scales, xt.zps
+        b.net.ops.append(Op("SQUEEZE", [x], [out], ("SqueezeOptions", dict(SqueezeDims=sq))))
+    elif kind == "pad5" and rank >= 1:
+        pt = b.const([rank, 2], "int32", [[1, 0]] * rank)
+        out = tensor([d + 1 for d in dims])
+        if xt.scales:
+            b.t(out).scales, b.t(out).zps = xt.scales, xt.zps
+        b.net.ops.append(Op("PAD", [x, pt], [out], ("PadOptions", {})))
+    elif kind == "mean_all" and rank >= 1:
+        ax = b.const([rank], "int32", list(range(rank)))
+        out = tensor([1] * rank if rng.random() < 0.5 else [])
+        keep = len(b.t(out).shape) == rank
+        b.net.ops.append(Op("MEAN", [x, ax], [out], ("ReducerOptions", dict(KeepDims=keep))))
+    if out is None:
+        out = tensor(dims)
+        b.net.ops.append(Op("RELU", [x], [out]))
+        b.net.desc.append("fallback-relu")
+    return b.finish([out])
